@@ -75,3 +75,11 @@ Theorem C08_result_buffer_repair_is_conservative : forall t e,
   js_recv_unrepaired t e = js_recv t e.
 Proof. exact repair_is_conservative. Qed.
 Print Assumptions C08_result_buffer_repair_is_conservative.
+
+(* an absent optional field: the repaired writeOptionToArrayBuffer stores is_ok = 0 (C08_read_after_write covers it for any
+   previous memory contents); the unrepaired one wrote nothing and read back Some from a dirty buffer *)
+Theorem C08_absent_option_unrepaired_refuted :
+  exists m, length m = 2%nat /\ read_val (FOpt (FPrim 1)) (write_none_unrepaired m) 0 <> VNone /\
+            read_val (FOpt (FPrim 1)) (write_val (FOpt (FPrim 1)) VNone m 0) 0 = VNone.
+Proof. exact none_unrepaired_refuted. Qed.
+Print Assumptions C08_absent_option_unrepaired_refuted.
